@@ -727,7 +727,10 @@ def run(tier, res, force_search=False):
         "np.random.uniform(low, high) returns values in [low, high): the draws are captured in-process and handed to the model; theorems are for every draw in that range",
         "the maximum-likelihood / Nelder-Mead fits are outside the model (the model states which data they are given)",
     ]
-    res.assumptions = ["precipitation values are >= 0; the dry fraction lies strictly between 0 and 1; oracle samples have >= 5 wet values (scipy's gamma MLE raises on a single wet value)",
+    res.assumptions = ["element-wise structure (sub-vectors, chunks, large vectors): the array forms of the model (Model.Precip.hurdleCdfL … censPostL, used by the driver) are element-wise by theorem "
+                       "(Props.C17.*_select, arrays_chunkwise, izCdfL_no_zero); that the real methods have no size-gated or content-dependent shortcut is decided by the oracle on the real code (sub-vector / chunk comparison)",
+                       "result dtype for float32 input, exceptions raised by scipy's fits, and the float cancellation in (q - p0)/(1 - p0) are runtime effects outside the exact-arithmetic model: oracle only",
+                       "precipitation values are >= 0; the dry fraction lies strictly between 0 and 1; oracle samples have >= 5 wet values (scipy's gamma MLE raises on a single wet value)",
                        "float guard of the round-trip oracle: demanded where 1e-4 <= F(x) <= 1 - 1e-4 (outside, float cancellation in (q - p0)/(1 - p0) and the flat tails of ppf dominate)",
                        "the real Nelder-Mead fit of the censored model is exercised only on samples with >= 10 values above the threshold (with none the optimiser silently degenerates: shape ~ 1e-15, cdf == 1, ppf nan)",
                        "censored model: at x == threshold exactly the float ppf(cdf(x)) may fall just below the threshold; either outcome is accepted and counted"]
